@@ -211,7 +211,15 @@ fn draw_text(p: &mut Prng, surface: Surface) -> String {
             s.n_in = s.n_in.min(2);
             s.n_out = s.n_out.min(2);
             s.utxos = false;
-            psetgen::pset(&s).to_string()
+            let n = p.u32();
+            match crate::corpus::nth(crate::corpus::Kind::Pset, n) {
+                // one in six: a real PSET of the repository's vectors (the smaller ones), as base64 text
+                Some(i) if p.chance(1, 6) && crate::corpus::get().bytes(i).len() < 20_000 => {
+                    use elements::bitcoin::base64::{engine::general_purpose::STANDARD, Engine as _};
+                    STANDARD.encode(crate::corpus::get().bytes(i))
+                }
+                _ => psetgen::pset(&s).to_string(),
+            }
         }
         _ => String::new(),
     };
